@@ -1,7 +1,7 @@
 (* C18 — writing an instance as MPS and reading it back returns the same problem.
    Property theorems only; each is closed by [exact] of a lemma of the development
    (writer / reader model: theories/Mps.v, proofs: theories/MpsProofs.v). *)
-Require Import Ommx.Num Ommx.Poly Ommx.Msg Ommx.Tree Ommx.Mps Ommx.MpsSpec Ommx.MpsProofs Ommx.RunC17 Ommx.RunC18.
+Require Import Ommx.Num Ommx.Poly Ommx.Msg Ommx.Tree Ommx.Mps Ommx.MpsSpec Ommx.MpsProofs Ommx.RunC17 Ommx.RunC18 Ommx.MpsWriteRoundTrip.
 From Coq Require Import String Ascii.
 Open Scope string_scope.
 Open Scope list_scope.
@@ -88,6 +88,29 @@ Example C18_nonvacuous :
   | WErr _ => False
   end.
 Proof. vm_compute. split; reflexivity. Qed.
+
+(* the round trip as a theorem (Tier B): for EVERY well-formed linear instance -- linear objective
+   and constraints, used ids defined, distinct ids below 2^64, sense and equality kinds specified,
+   used variables with a proper domain, every printed number a terminating decimal of fewer than 64
+   fractional digits -- the writer succeeds, the reader reads the written lines back, and the result
+   is the same problem in the sense of the comparator the correspondence uses (sense, objective,
+   per-id constraint functions and kinds, value domain of every used variable).  No assumption on
+   the number printer / parser remains. *)
+Theorem C18_load_write : forall I0, wfb_dec I0 = true ->
+  exists lines, write_mps I0 = WOk lines /\ load_lines lines = Ok (readback I0) /\
+                same_problem I0 (readback I0) = None.
+Proof. exact C18_roundtrip_decimal. Qed.
+Print Assumptions C18_load_write.
+
+(* the writer accepts exactly the linear instances whose used ids are defined *)
+Theorem C18_writer_accepts_iff : forall I0,
+  (exists lines, write_mps I0 = WOk lines) /\ linb (in_obj I0) = true <-> wf_lin I0 && wf_used I0 = true.
+Proof. exact wfb_write_iff. Qed.
+Print Assumptions C18_writer_accepts_iff.
+
+Example C18_load_write_nonvacuous : wfb_dec MpsWriteRoundTrip.ex_inst = true.
+Proof. exact ex_inst_wf_dec. Qed.
+
 
 Example C18_refusal_nonvacuous :
   write_mps {| in_sense := 1%N; in_obj := FConst 0;
